@@ -84,13 +84,32 @@ def rt_record(p):
     # entry label; such an address is only ever reached as a function entry, so its stems are dropped
     for a in entries:
         stems.pop(a, None)
+    # stack guards, read off the code in front of each `no_overflow_N` label:
+    #   entry guard      sub [r1], [fp], [ap] ; hgeu [r1], K ; j stack_overflow ; halt ; no_overflow_N:
+    #   dynamic array    sub [r1], [fp], [ap] ; sub [r1], [r1], X ; hgeu [r1], <size> ; j stack_overflow ; halt ; no_overflow_N:
+    # (a label whose neighbourhood looks different is left out: the GuardCovers monitor is then silent for it)
+    guards = {}
+    r1 = st('r1')
+    for n, (sct, a) in L.items():
+        if sct == 'code' and re.fullmatch(r'no_overflow_\d+', n) and a >= 4:
+            h = p.ops[a - 3]
+            if h[0] != 'hgeu' or h[1] != ('s', r1):
+                continue
+            x = p.ops[a - 4]
+            gap = ('sub', ('s', r1), ('s', st('fp')), ('s', st('ap')))
+            if x == gap and h[2][0] == 'i':
+                guards[a] = ('e', h[2][1])
+            elif a >= 5 and p.ops[a - 5] == gap and x[0] == 'sub' and x[1] == ('s', r1) and x[2] == ('s', r1) and x[3][0] == 'i':
+                guards[a] = ('v', x[3][1])         # the size compared against (register or constant) is added to ap next
+    guard_txt = '<<>>' if not guards else '(' + ' @@ '.join(
+        '%d :> [k |-> "%s", v |-> %d]' % (a, k, v) for a, (k, v) in sorted(guards.items())) + ')'
     stem_txt = '<<>>' if not stems else '(' + ' @@ '.join(
         '%d :> %s' % (a, tla(sorted(v, key=lambda d: (d['s'], d['k'])))) for a, v in sorted(stems.items())) + ')'
     return {'ap': st('ap'), 'fp': st('fp'), 'r0': st('r0'), 'r1': st('r1'), 'r2': st('r2'),
             'tryfp': st('try_fp'), 'defeat': st('defeat'), 'sstart': st('stack_start'), 'send': st('stack_end'),
             'halt': cd('halt'), 'entries': set(entries), 'userfuncs': set(userfuncs), 'terminals': set(terminals),
             'libent': set(sorted({cd(n) for n in STDLIB_ENTRIES if cd(n) >= 0})),
-            'stems': Raw(stem_txt), 'stempcs': set(stems.keys())}
+            'stems': Raw(stem_txt), 'stempcs': set(stems.keys()), 'guards': Raw(guard_txt), 'guardpcs': set(guards.keys())}
 
 
 def init_record(p, hcase=0):
